@@ -1334,7 +1334,7 @@ theorem targeting_main (sc : SideConditions ws pths excl) (hfull : build ws = .o
       let canon : Str → File := fun q =>
         match lookup ws q with
         | some g => mark (targetPathsOf ws') g
-        | none => ⟨[], false, []⟩
+        | none => ⟨[], false, [], {}⟩
       apply perm_of_canon canon nI nM ?_ ?_ hpaths
       · intro h hh
         obtain ⟨g1, hg1, he1⟩ := sI h hh
